@@ -4,6 +4,7 @@ import PcbV.Model.ErrTrap
     program: lines separated by `|`, a line is `<number>:<stmt>;<stmt>…` (`-` = empty program);
     a direct line is `<stmt>;<stmt>…`; statement fields are separated by `,`:
       M,k  P  E,n  F,e  C,v,e  S,e  T,v  U,n  R  G,n  O,n  Z  ZN  ZL,n  X  I  Q,n  RUN
+      N  D,k  K,k+k…,v,e  A,v,e  B
   Reply: `ok <exec>/<exec>/…`, one `<items>:<status>` per direct line; items `m<k>`, `e<err>.<erl>`, `s<e>`
   comma separated or `-`; status `ok`, `err<e>@<line>`, `err<e>` (message without line), `fuel`.
 -/
@@ -30,6 +31,11 @@ def parseStmt (s : String) : Option Stmt :=
   | ["I"] => some .inc
   | ["Q", n] => n.toNat?.map .endIf
   | ["RUN"] => some .run
+  | ["N"] => some .nop
+  | ["D", k] => k.toNat?.map .defFn
+  | ["K", ks, v, e] => do pure (.fnc (← (ks.splitOn "+").mapM (·.toNat?)) (← v.toNat?) (← e.toNat?))
+  | ["A", v, e] => do pure (.forc (← v.toNat?) (← e.toNat?))
+  | ["B"] => some .nextq
   | _ => none
 
 def parseStmts (s : String) : Option (List Stmt) := (s.splitOn ";").mapM parseStmt
